@@ -46,7 +46,9 @@ CHECKS = {
                      "state unchanged on fault, blocked waits). All programs up to 3 (thorough 4) instructions with every branch "
                      "kind and every jump target are run under a step horizon and compared on the executed-pc trace and final state. "
                      "Four programs (moves/returns, arithmetic, array length/index/slice bounds, branches) are run for every ordered pair "
-                     "of the 64 registers, so every register of every bank is exercised in every operand role.",
+                     "of the 64 registers, so every register of every bank is exercised in every operand role; the state after the set-up "
+                     "subroutine is compared with a literal (registers nothing wrote are undefined), which anchors the reference state "
+                     "that is otherwise read from the executor.",
                 note="reference semantics of appendix B; 'unspecified' cases (negative indices, undefined operands) excluded and counted; "
                      "quantum hooks and wait polling are harness overrides of no-op/abstract methods",
                 ref="3/C04"),
@@ -60,9 +62,10 @@ CHECKS = {
                      "with direct evaluation of the AST on the ordered gate/measurement trace, controller arrays and registers "
                      "after each flush, and the host-side value of every live Future/RegFuture/Array handle after each flush. The "
                      "reduced x small pair pool also runs on the NV hardware config with and without the NV transpiler (measurement "
-                     "outcomes, memory, handles and the final state of the persistent qubit). Two further families: 653 programs around "
-                     "less-used entry points (builder.new_register, array entries indexed by a Future, additions of 0 with a modulus, "
-                     "loops counting down), and every sequence of 3 (thorough 4) array-lifecycle operations (new array with / without "
+                     "outcomes, memory, handles and the final state of the persistent qubit). Two further families: about 900 programs around "
+                     "less-used entry points (builder.new_register incl. single-operand conditions on it, array entries indexed by a "
+                     "Future, additions of 0 with a modulus, loops counting down, try_until_success with work queued around it, handles "
+                     "of array slices for 12 slice shapes, loop_until exit bounds -2..2), and every sequence of 3 (thorough 4) array-lifecycle operations (new array with / without "
                      "values, flush, add to an entry, measure into an entry) on connections with and without ret_arr, judged against a model "
                      "of the controller arrays and the host handles after every flush.",
                 note="programs beyond the size/nesting bound and SDK usages outside the grammar are not covered; quantum hooks of the "
@@ -116,7 +119,8 @@ CHECKS = {
                      "allocated virtual ids must be the same set. In addition every configuration with budgets 2-4 is explored with a flush "
                      "after every operation until the state graph closes (2-65 states), i.e. for flushed histories of any length; "
                      "sequential keep without a post routine (handle used at once) is part of the alphabet; two connections alive in one "
-                     "process must each agree with their own controller.",
+                     "process must each agree with their own controller, also with their EPR contexts nested in each other; in every "
+                     "explored state with nothing pending the connection is closed: no handle stays active, the controller holds nothing.",
                 note="depth 3-5 quick / 5-8 thorough per budget (state caps reported); EPR responses delivered on demand, all Phi+; open "
                      "known findings for NV-only SDK defects (non-sequential NV context deadlock, hard-coded NV memory ids, carbon-carbon "
                      "gate through an unallocated electron)",
@@ -143,7 +147,8 @@ CHECKS = {
                      "registration made by the executor, equals an independently written argument-to-field map with documented defaults; "
                      "enum-typed fields are enum members and request_to_qlink_1_0 accepts K and M requests with matching fields. With "
                      "responses carrying all-distinct field values, every Qubit.entanglement_info field, the qubit-to-pair association, "
-                     "every EprKeepResult field and every EprMeasureResult field reads the same-named field of its own pair's response. "
+                     "every EprKeepResult field and every EprMeasureResult field reads the same-named field of its own pair's response, "
+                     "with the responses delivered in netqasm's own type and as qlink-interface 1.0 objects. "
                      "The socket registration recorded by the stack must be (local id, remote node, remote id) as opened, with local id != remote id. "
                      "Every seventh request case is repeated with an EPRSocket object that served a connection of another network before.",
                 note="delivery schedule fixed to 'next pair when a wait blocks' (interleavings are C12); measurement_outcome compared only "
@@ -218,7 +223,7 @@ CHECKS = {
                 note="operands in range; 32-bit integers on the boundary lattice",
                 ref="3/C17"),
     "C18": dict(cat="model_checking", tech="stateless schedule exploration of the implementation: CHESS-style iterative context bounding on real threads (sys.settrace baton scheduler, scheduler-aware lock and sleep, fair scheduling for 3 threads, audited preemption-placement reduction)",
-                text="For 15 scenarios (plain, structured and silent send/receive, blocking and non-blocking, message values incl. the empty string) of 2-3 real ThreadSocket / StorageThreadSocket / broadcast-channel endpoints (<= 4 sends or receives each; "
+                text="For 15 scenarios (plain, structured and silent send/receive, blocking and non-blocking, with and without a size hint, message values incl. the empty string) of 2-3 real ThreadSocket / StorageThreadSocket / broadcast-channel endpoints (<= 4 sends or receives each; "
                      "plain, structured, callback, non-blocking, two socket ids, close while draining, either side first) every thread "
                      "schedule with <= 2 (quick) / <= 3 (thorough) preemptions at statement granularity in socket_hub.py, "
                      "thread_socket/socket.py and broadcast_channel.py is executed on the real code. Per direction and socket id the "
